@@ -48,6 +48,4 @@ try:
     print('MUTANT rc =', r.returncode, '(1 = detected)')
 finally:
     shutil.rmtree(d, ignore_errors=True)
-    # evidence files written during a mutant run are not evidence
-    subprocess.run(['git', '-C', '/verif', 'checkout', '--', 'evidence'], capture_output=True)
     shutil.rmtree('/verif/replays', ignore_errors=True)
